@@ -23,6 +23,7 @@ structure Sess where
   zit : DList.ZipIter := {}
   sit : LSeq.Cursor := {}
   pst : PList.St := {}                              -- pointer-level model (Model/PList.lean), run alongside
+  pit : PList.PIter := {}                           -- the ascending iterator with its fields as node ids (`PList.piterStep`)
   phd : List (Option PList.Hdr) := [none, none, none, none]
   disp : Std.HashMap Nat Nat := {}                  -- node id -> display id (first-seen order, as the shim numbers the C nodes)
   dnext : Nat := 0
@@ -269,7 +270,7 @@ def stepCore (s : Sess) (c : Cmd) : Sess × String × String :=
     | "add_all" | "add_all_at" | "splice" | "splice_at" =>
       match getM s from_, getS s from_ with
       | some l2, some a2 =>
-        if from_ == k then fin1 s "st=- contract" else
+        if from_ == k && (c.op == "splice" || c.op == "splice_at") then fin1 s "st=- contract" else
         if c.op == "add_all" || c.op == "add_all_at" then
           let r := if c.op == "add_all" then DList.addAll l l2 m else DList.addAllAt l l2 idx m
           let q := if c.op == "add_all" then LSeq.addAll a a2 else LSeq.addAllAt true a a2 idx
@@ -410,6 +411,24 @@ def plStep (old s : Sess) (c : Cmd) : Sess :=
     -- iterator mutators: the cursor is the sequence-level one; `iter->last` is the node at that position
     let want := if c.op.startsWith "it_" then 1 else if c.op.startsWith "dit_" then 2 else 3
     let sub := (c.op.drop (if want == 1 then 3 else 4)).toString
+    if c.op == "it_new" then
+      match old.phd.getD k none with
+      | some h => { s with pit := PList.piterInit h }
+      | none => s
+    else
+    if want == 1 && old.itKind == 1 then
+      -- the ascending iterator runs entirely on node ids (`iter->last`, `iter->next`), as in the C struct
+      match old.phd.getD old.itO none with
+      | some h =>
+        let op? : Option PList.PIOp := if sub == "next" then some .next else if sub == "add" then some (.add (c.arg 0))
+          else if sub == "remove" then some .remove else if sub == "replace" then some (.replace (c.arg 0)) else none
+        match op? with
+        | some op =>
+          let r := PList.piterStep s.pst h old.pit op m
+          chk { (setP s old.itO r.2.1 (some r.2.2.1)) with pit := r.2.2.2.1 } r.2.2.2.2
+        | none => s
+      | none => s
+    else
     if old.itKind != want || !(sub == "add" || sub == "remove" || sub == "replace") then s else
     let idAt (j : Nat) (p : Ptr) : Option Nat :=
       match old.phd.getD j none, p with
@@ -454,7 +473,7 @@ def plStep (old s : Sess) (c : Cmd) : Sess :=
     | "add_all" | "add_all_at" | "splice" | "splice_at" =>
       match old.phd.getD from_ none with
       | some h2 =>
-        if from_ == k then s else
+        if from_ == k && (c.op == "splice" || c.op == "splice_at") then s else
         if c.op == "add_all" || c.op == "add_all_at" then
           let r := if c.op == "add_all" then PList.addAll s.pst h h2 m else PList.addAllAt s.pst h h2 idx m
           chk (setP s k r.2.1 (some r.2.2.1)) r.2.2.2
@@ -472,9 +491,9 @@ def plStep (old s : Sess) (c : Cmd) : Sess :=
     | "replace_at" =>
       let r := PList.replaceAt s.pst h v idx m
       chk (setP s k r.2.2.1 (some r.2.2.2.1)) r.2.2.2.2
-    | "reverse" => let r := PList.reverse s.pst h; setP s k r.1 (some r.2)
+    | "reverse" => let r := PList.reverseC s.pst h m; chk (setP s k r.1 (some r.2.1)) r.2.2
     | "filter_mut" => let r := PList.filterMut LSeq.predEven s.pst h m; chk (setP s k r.2.1 (some r.2.2.1)) r.2.2.2
-    | "sort_in_place" => let r := PList.sortInPlace (pickCmp c) s.pst h; setP s k r.1 (some r.2)
+    | "sort_in_place" => let r := PList.sortInPlace (pickCmp c) s.pst h m; chk (setP s k r.1 (some r.2.1)) r.2.2
     | "sort" => let r := PList.sort (LSeq.stableSort LSeq.cmpNum) s.pst h m; chk (setP s k r.2.1 (some r.2.2.1)) r.2.2.2
     | "mk_sub" | "mk_copy_shallow" | "mk_copy_deep" | "mk_filter" =>
       if (getM old to).isSome || to == k then s else
